@@ -4704,6 +4704,8 @@ func (t *Terminal) Loop() error {
 				t.history.append(string(t.input))
 			}
 			running = false
+			// The terminal is closed: the key loop must not act on anything from here on
+			t.running.Set(false)
 			t.mutex.Unlock()
 		}
 
@@ -4964,6 +4966,11 @@ func (t *Terminal) Loop() error {
 		}
 
 		t.mutex.Lock()
+		if !t.running.Get() {
+			// Exiting (signal, print-query, become, ...): the renderer has already restored the terminal
+			t.mutex.Unlock()
+			return nil
+		}
 		for key, ret := range t.expect {
 			if keyMatch(key, event) {
 				t.pressed = ret
